@@ -279,3 +279,72 @@ class p_expression_number:
 
     def post(self, p, out):
         return no_callbacks(self)
+
+
+def seq_cases(nt, sep_tok, sep):
+    L = SEQ(E)
+    return [dict(p=PROD(nt, ('expression', E))),
+            dict(p=PROD(nt, (sep_tok, sep), (sep_tok, sep))),
+            dict(p=PROD(nt, (sep_tok, sep), (nt, L))),
+            dict(p=PROD(nt, (nt, L), (sep_tok, sep))),
+            dict(p=PROD(nt, (nt, L), (sep_tok, sep), ('expression', E))),
+            dict(p=PROD(nt, (nt, L), (sep_tok, sep), (sep_tok, sep), ('expression', E)))]
+
+
+def seq_spec(p):
+    """ slot list of the concatenated yield: one slot per separator-delimited position, None for an omitted one, in order """
+    n = len(p)
+    if n == 2:
+        return [p[1]]
+    if n == 3:
+        if not is_list(p[1]) and not is_list(p[2]):
+            return [None, None, None]        # SEP SEP: three blank slots
+        if not is_list(p[1]):
+            return [None] + p[2]             # SEP seq
+        return p[1] + [None]                 # seq SEP
+    if n == 4:
+        return p[1] + [p[3]]                 # seq SEP e
+    return p[1] + [None, p[4]]               # seq SEP SEP e
+
+
+@contract('hotxlfp.grammarparser.parser:FormulaParser.p_expseq_comma', props=['C05', 'C02', 'C18'])
+class p_expseq_comma:
+    args = dict(self=FP)
+    cases = seq_cases('expseqcomma', 'COMMA', ',')
+    result_is_p0 = True
+
+    def spec(self, p):
+        return seq_spec(p)
+
+    def post(self, p, out):
+        return no_callbacks(self)
+
+
+@contract('hotxlfp.grammarparser.parser:FormulaParser.p_expseq_backslash', props=['C05', 'C02', 'C18'])
+class p_expseq_backslash:
+    args = dict(self=FP)
+    cases = seq_cases('expseqbackslash', 'BACKSLASH', '\\')
+    result_is_p0 = True
+
+    def spec(self, p):
+        return seq_spec(p)
+
+    def post(self, p, out):
+        return no_callbacks(self)
+
+
+@contract('hotxlfp.grammarparser.parser:FormulaParser.p_expseq_semicolon', props=['C05', 'C02', 'C18'])
+class p_expseq_semicolon:
+    args = dict(self=FP)
+    cases = seq_cases('expseqsemicolon', 'SEMICOLON', ';') + [
+        dict(p=PROD('expseqsemicolon', ('expseqcomma', SEQ(E)), ('SEMICOLON', ';'), ('expseqcomma', SEQ(E)))),
+        dict(p=PROD('expseqsemicolon', ('expseqbackslash', SEQ(E)), ('SEMICOLON', ';'), ('expseqbackslash', SEQ(E))))]
+    result_is_p0 = True
+
+    def spec(self, p):
+        if len(p) == 4 and is_list(p[1]) and is_list(p[3]) and str_of_symbol(p, 1) != 'expseqsemicolon':
+            return [p[1], p[3]]              # ';' between two comma/backslash rows: the list of those two rows
+        return seq_spec(p)
+
+    def post(self, p, out):
+        return no_callbacks(self)
